@@ -232,33 +232,34 @@ def addGenerator (g : Gh) (s : PState) : PState :=
     let r := if s.em then (true, s) else needGens g s
     if r.1 then firstPoint g r.2 else insertGens g r.2
 
+/-- the receiver was (found) empty: `gs` becomes its generator system (`add_recycled_generators`). -/
+def swapGens (g : Gh) (s : PState) : PState :=
+  let s := (s.set .emp false |>.set .vG true |>.set .mG false |>.set .dd false |>.set .vC false
+              |>.set .gsS g.keep |>.set .rG g.keep |>.set .pG false).bump
+  clearEmpty (setGeneratorsUpToDate s)
+
 /-- `add_recycled_generators(gs)` (= `add_generators`). -/
 def addGenerators (g : Gh) (f : Facts) (s : PState) : PState :=
   if f.norows then s
   else if s.dim == 0 then setZeroDimUniv (s.set .emp false).bump
   else
-    let r : Bool × PState :=
-      if s.cpend then
-        let r := processPendingConstraints g s
-        if !r.1 then (true, r.2)
-        else if !r.2.gup then let q := minimize g r.2; (!q.1, q.2) else (false, r.2)
-      else if !s.gup then let q := minimize g s; (!q.1, q.2)
-      else (false, s)
+    let r := needGensMin g s
     if r.1 then
       -- swap(gen_sys, gs); set_generators_up_to_date(); clear_empty();
-      let s := (r.2.set .emp false |>.set .vG true |>.set .mG false |>.set .dd false |>.set .vC false
-                  |>.set .gsS g.keep |>.set .rG g.keep |>.set .pG false).bump
-      clearEmpty (setGeneratorsUpToDate s)
+      swapGens g r.2
     else insertGens g r.2
 
 /-- `unconstrain(var)` / `unconstrain(vars)` (non-empty `vars`). -/
 def unconstrain (g : Gh) (s : PState) : PState :=
+  if s.dim == 0 then s      -- (throws: the variable is not a dimension of the polyhedron)
+  else
   let r := if s.em then (true, s) else needGens g s
   if r.1 then r.2 else insertGens g r.2
 
 /-- `affine_image(var, expr, d)`; `f.inv`: the transformation is invertible. -/
 def affineImage (g : Gh) (f : Facts) (s : PState) : PState :=
-  if s.em then s
+  if s.dim == 0 then s      -- (throws: the variable is not a dimension of the polyhedron)
+  else if s.em then s
   else if f.inv then
     -- both systems, if up to date, are transformed in place: minimal form and saturators preserved
     let s := setChanges false s
@@ -279,7 +280,8 @@ def affineImage (g : Gh) (f : Facts) (s : PState) : PState :=
 
 /-- `affine_preimage(var, expr, d)`. -/
 def affinePreimage (g : Gh) (f : Facts) (s : PState) : PState :=
-  if s.em then s
+  if s.dim == 0 then s      -- (throws: the variable is not a dimension of the polyhedron)
+  else if s.em then s
   else if f.inv then
     let s := setChanges false s
     let s := if s.cup then conRewrite g.aux s else s
